@@ -1647,6 +1647,21 @@ class Interp:
                 len(args) == 1 and not kwargs and args[0].op != "star":
             # np.shape(a) is a.shape etc.: one term for both spellings
             return tm.attr(args[0], _ATTR_ALIASES[fn.args[0]])
+        if fn.op == "cls" and len(args) == 1 and not kwargs and \
+                self.prog.enum_members(fn.args[0]) is not None:
+            # Enum lookup by member or by value: Unit(Unit.meters) is
+            # Unit.meters, Unit("m") is Unit.meters
+            a0 = self.unname(args[0])
+            if a0.op == "enum" and a0.args[0] == fn.args[0]:
+                return a0
+            c = self.prog.classes.get(fn.args[0])
+            if a0.op == "const" and c is not None:
+                for mname in self.prog.enum_members(fn.args[0]):
+                    nd = c.members.get(mname)
+                    if isinstance(nd, ast.Constant) and \
+                            nd.value == tm.const_val(a0) and \
+                            type(nd.value) is type(tm.const_val(a0)):
+                        return tm.enum(fn.args[0], mname)
         if fn.op == "global" and fn.args[0] == "builtins.len" and \
                 len(args) == 1 and not kwargs and tm.is_const(args[0]) and \
                 isinstance(tm.const_val(args[0]), (str, bytes)):
